@@ -118,6 +118,45 @@ def real_check(key, cur, prop, corr, x, xp):
     return (not problems), problems, obs
 
 
+def traced_int(key, cur, prop, corr, x, xp, n):
+    """as `traced`, with an integer entry in the model state that the proposal does not touch"""
+    from liesel.goose.interface import DictInterface
+    from liesel.goose.mh import mh_step
+
+    info, st = mh_step(key, DictInterface(lambda s: s["lp"]), {"lp": prop, "x": xp}, {"lp": cur, "x": x, "n": n}, corr)
+    return dict(moved=info.position_moved, lp=st["lp"], x=st["x"], n=st["n"])
+
+
+def int_state_obligation(chk):
+    F = z3.Float32()
+    sc = lambda n: np.array(z3.FP(n + "_i", F), dtype=object).reshape(())
+    nvar = z3.BitVec("n_i", 32)
+    sym = (root_key("k"), sc("cur"), sc("prop"), sc("corr"), sc("x"), sc("xp"), np.array(nvar, dtype=object).reshape(()))
+    ex = (jax.random.PRNGKey(0), 1.0, 2.0, 0.5, 0.1, 0.2, jnp.int32(16777217))
+    enc = chk.note_enc(Enc("mh_step (state with an int32 entry)", traced_int, ex, sym, mode="fp32"))
+    o = {k: cells(v)[0] for k, v in enc.out.items()}
+    cur, prop, corr, x, xp = [cells(a)[0] for a in sym[1:6]]
+
+    def goal(V):
+        n_out = o["n"]
+        same_n = (n_out == nvar) if z3.is_bv(n_out) else z3.BoolVal(False)
+        return [], z3.And(same_n, z3.Implies(z3.Not(o["moved"]), z3.And(o["lp"] == cur, o["x"] == x)), z3.Implies(o["moved"], z3.And(o["lp"] == prop, o["x"] == xp)))
+
+    def replay(ob, model, rng):
+        from ..zeval import model_value
+        vals = [model_value(model, v, np.float32(0)) for v in (cur, prop, corr, x, xp)]
+        nv = model.eval(nvar, model_completion=True).as_signed_long()
+        for n_ in (nv, 16777217, -33554431, 2147483647):
+            for s in range(3):
+                out = traced_int(jax.random.PRNGKey(s), *[jnp.float32(v) for v in vals], jnp.int32(n_))
+                if int(out["n"]) != int(np.int32(n_)):
+                    return dict(reproduced=True, inputs=dict(key=[0, s], cur=float(vals[0]), prop=float(vals[1]), corr=float(vals[2]), n=int(n_)), observed=dict(n_returned=int(out["n"]), moved=bool(out["moved"])),
+                                note="an integer entry of the model state that the proposal does not touch comes back changed")
+        return dict(reproduced=False, note="integer entry returned unchanged at the solver's point and at 3 large values")
+    return [Obligation("accepted or rejected, an int32 entry of the model state outside the proposal is returned bit for bit (and the float entries are the proposed / the input ones)", [enc],
+                       goal, timeout_s=300, replay=replay, signature="mh_step:int-entry")]
+
+
 def main():
     chk = Check("C05")
     F = z3.Float32()
@@ -205,8 +244,9 @@ def main():
         if not ok:
             chk.violation("mh_step:concrete-point", "property fails at a translator-validation point", dict(reproduced=True, observed=obs, note="; ".join(problems)))
     chk.validated_points = pts
+    obs_ += int_state_obligation(chk)
     chk.run(obs_)
-    chk.bounds += ["all float32 values of current/proposed log-density, correction and one carried state scalar (incl. +-inf, NaN, -0)",
+    chk.bounds += ["all float32 values of current/proposed log-density, correction and one carried state scalar (incl. +-inf, NaN, -0)", "all 2^32 values of an int32 state entry outside the proposal",
                    "all 2^32 values of the random word behind jax.random.uniform", "no other bound: mh_step has no loops"]
     chk.assume("exp is an uninterpreted float32 function constrained by: NaN<->NaN, non-negative, exp(-inf)=+0, exp(+inf)=+inf, exp(+-0)=1, >=1 on x>=0, <=1 on x<0, monotone",
                "random_bits(key) is an arbitrary 32-bit word (ideal PRNG)",
@@ -222,6 +262,12 @@ def replay(path):
     with open(path) as f:
         r = json.load(f)
     i = r["replay"]["inputs"]
+    if "n" in i:
+        out = traced_int(jnp.asarray(i["key"], dtype=jnp.uint32), jnp.float32(i["cur"]), jnp.float32(i["prop"]), jnp.float32(i["corr"]), jnp.float32(0.1), jnp.float32(0.2), jnp.int32(i["n"]))
+        same = int(out["n"]) == int(np.int32(i["n"]))
+        print("observed:", dict(n_in=i["n"], n_returned=int(out["n"]), moved=bool(out["moved"])))
+        print("property holds at this input" if same else "VIOLATION reproduced: integer state entry changed")
+        return 0 if same else 1
     ok, problems, obs = real_check(np.asarray(i["key"], dtype=np.uint32), i["cur"], i["prop"], i["corr"], i["x"], i["xp"])
     print("observed:", obs)
     print("property holds at this input" if ok else "VIOLATION reproduced: " + "; ".join(problems))
